@@ -147,7 +147,7 @@ def scenarios(ctx):
         out.append(Std('%s-%s' % (profile, 'clean' if clean else 'persist'), profile=profile, init=init,
                        connects=[(clean, 0, 4)], reconnects=[(False, 0, 4), (True, 0, 4)],
                        inpubs=INPUBS, inrels=((1,), (2,), (3,)), closing=False,
-                       budgets=dict(inpub=3 if q else 4, inrel=3, lose=1, rebuild=1, connect=1, connack=1)))
+                       budgets=dict(inpub=4 if q else 5, inrel=3 if q else 4, lose=2, rebuild=2, connect=2, connack=2)))
     return out
 
 
